@@ -1,12 +1,16 @@
 package checks
 
 import (
+	"bytes"
 	"encoding/json"
 	"fmt"
+	al "github.com/rhysd/actionlint"
+	"path/filepath"
 	"regexp"
 	"sort"
 	"strings"
 	"testing"
+	"verifharness/world"
 
 	"pgregory.net/rapid"
 	"verifharness/hx"
@@ -56,6 +60,71 @@ func checkCaseRespelling(c *c08Case) (key, msg string, ndiag int) {
 	return "", "", len(da)
 }
 
+var reQuotedName = regexp.MustCompile(`"[^"]*"`)
+
+type c08World struct {
+	A map[string]string `json:"a"`
+	B map[string]string `json:"b"`
+}
+
+// checkWorldRespelling lints .github/workflows/w.yml of both worlds (caller alone and together with
+// the callee) and compares the caller's diagnostics up to letter case of the messages.
+func checkWorldRespelling(c *c08World) (key, msg string, ndiag int) {
+	run := func(files map[string]string, together bool) ([]string, string) {
+		w := world.New()
+		defer w.Cleanup()
+		w.Repo("")
+		for p, s := range files {
+			w.Write(p, s)
+		}
+		var out []Diag
+		var pan any
+		var ferr error
+		func() {
+			defer func() { pan = recover() }()
+			l, _ := al.NewLinter(&bytes.Buffer{}, &al.LinterOptions{WorkingDir: w.Root})
+			paths := []string{filepath.Join(w.Root, ".github/workflows/w.yml")}
+			if together {
+				paths = append(paths, filepath.Join(w.Root, ".github/workflows/callee.yml"))
+			}
+			errs, err := l.LintFiles(paths, nil)
+			ferr = err
+			for _, e := range errs {
+				if strings.HasSuffix(e.Filepath, "w.yml") {
+					out = append(out, Diag{e.Line, e.Column, e.Kind, e.Message, e.Filepath})
+				}
+			}
+		}()
+		if pan != nil || ferr != nil {
+			return nil, fmt.Sprintf("%v %v", pan, ferr)
+		}
+		// lists of defined names are printed in the order of their spelling: compare them as sets
+		for i := range out {
+			var names []string
+			out[i].Msg = reQuotedName.ReplaceAllStringFunc(strings.ToLower(out[i].Msg), func(q string) string {
+				names = append(names, q)
+				return "Q"
+			})
+			sort.Strings(names)
+			out[i].Msg += " " + strings.Join(names, ",")
+		}
+		return c08Norm(out), ""
+	}
+	for _, together := range []bool{false, true} {
+		na, e1 := run(c.A, together)
+		nb, e2 := run(c.B, together)
+		if e1 != "" || e2 != "" {
+			return "C08/panic-or-fatal", e1 + " " + e2, 0
+		}
+		ndiag = len(na)
+		if strings.Join(na, "\n") != strings.Join(nb, "\n") {
+			onlyA, onlyB := diffStrings(na, nb)
+			return "C08/diagnostics-change-with-letter-case(definition-in-other-file)", fmt.Sprintf("re-spelling names changed the diagnostics of the caller (callee in the same run: %v).\nonly with the plain spelling: %v\nonly with the re-spelled names: %v\n--- action.yml\n%s\n--- callee.yml\n%s\n--- w.yml\n%s", together, onlyA, onlyB, c.B["act/action.yml"], c.B[".github/workflows/callee.yml"], c.B[".github/workflows/w.yml"]), ndiag
+		}
+	}
+	return "", "", ndiag
+}
+
 var reJSONLit = regexp.MustCompile(`(?i)fromjson\('([^']*)'\)`)
 
 func jsonKeyCaseDiffers(a, b string) bool {
@@ -93,6 +162,15 @@ func diffStrings(a, b []string) (onlyA, onlyB []string) {
 }
 
 func init() {
+	hx.RegisterReplayer("C08/world", func(r *hx.Run, data json.RawMessage) {
+		var c c08World
+		if err := json.Unmarshal(data, &c); err != nil {
+			panic(err)
+		}
+		if k, m, _ := checkWorldRespelling(&c); k != "" {
+			r.Report(k, m, "C08/world", &c)
+		}
+	})
 	hx.RegisterReplayer("C08/respell", func(r *hx.Run, data json.RawMessage) {
 		var c c08Case
 		if err := json.Unmarshal(data, &c); err != nil {
@@ -249,7 +327,7 @@ func (rs *respeller) yaml(seg string) string {
 
 func TestC08(t *testing.T) {
 	hx.Main(t, "C08", func(r *hx.Run) {
-		r.Rule = "workflow shapes of the C05 generator (jobs, needs, step ids, matrix keys, inputs, secrets, outputs with defined and undefined references in dot and ['x'] form) extended with action `with:` keys, runner labels taken from matrix rows (runs-on: ${{ matrix.os }} with unknown labels among the row values), built-in function calls and fromJSON('{...}') literals with property access; every name occurrence (YAML key of a case-insensitive mapping, id: value, needs: entry, expression identifier / property / function name / ['name'] literal, JSON literal key) is independently re-spelled (upper / lower / alternating / unchanged). Oracle: the multiset of (line, column, kind, case-folded message) is identical for both spellings. Non-trivial = at least one occurrence re-spelled and the workflow has >= 1 diagnostic or >= 3 name uses; distinct = pair of texts. Negative control: TRUE/FALSE/NULL must become undefined variables."
+		r.Rule = "workflow shapes of the C05 generator (jobs, needs, step ids, matrix keys, inputs, secrets, outputs with defined and undefined references in dot and ['x'] form) extended with action `with:` keys, runner labels taken from matrix rows (runs-on: ${{ matrix.os }} with unknown labels among the row values), built-in function calls and fromJSON('{...}') literals with property access; every name occurrence (YAML key of a case-insensitive mapping, id: value, needs: entry, expression identifier / property / function name / ['name'] literal, JSON literal key) is independently re-spelled (upper / lower / alternating / unchanged). A second family defines the names in other files (inputs / outputs of a local action, inputs / secrets / outputs of a local reusable workflow, linted alone and with the callee in the run): definition and uses are re-spelled independently. Oracle: the multiset of (line, column, kind, case-folded message) is identical for both spellings. Non-trivial = at least one occurrence re-spelled and the workflow has >= 1 diagnostic or >= 3 name uses; distinct = pair of texts. Negative control: TRUE/FALSE/NULL must become undefined variables."
 		r.Assumptions = []string{"never re-spelled: keywords true/false/null, string literal contents that are not ['name'] indexes or JSON keys, permission scopes, event names, action specs, shell names, runner labels, env variable names"}
 		sites := map[string]int64{}
 		r.Check(t, "respell", hx.N(4000, 80000), func(rt *rapid.T) {
@@ -384,6 +462,52 @@ func TestC08(t *testing.T) {
 			}
 		})
 		r.Extra["respelled_occurrences_by_site_kind"] = sites
+		// names defined in another file: inputs / outputs of a local action, inputs / secrets / outputs of
+		// a local reusable workflow. Definition and every use are re-spelled independently.
+		r.Check(t, "respell-definitions-in-other-files", hx.N(600, 12000), func(rt *rapid.T) {
+			rs := &respeller{t: rt, counts: map[string]int{}}
+			sp := func(n string) string { return rs.spell(n, "other-file-name") }
+			plain := func(n string) string { return n }
+			render := func(f func(string) string) map[string]string {
+				var a, c, w strings.Builder
+				a.WriteString("name: act\ndescription: d\ninputs:\n")
+				fmt.Fprintf(&a, "  %s:\n    description: d\n    required: true\n", f("token"))
+				fmt.Fprintf(&a, "  %s:\n    description: d\n    required: true\n    default: x\n", f("level"))
+				fmt.Fprintf(&a, "  %s:\n    description: d\n", f("opt-in"))
+				fmt.Fprintf(&a, "outputs:\n  %s:\n    description: d\n  %s:\n    description: d\nruns:\n  using: node20\n  main: index.js\n", f("result"), f("other_out"))
+				c.WriteString("on:\n  workflow_call:\n    inputs:\n")
+				fmt.Fprintf(&c, "      %s:\n        type: string\n        required: true\n", f("name"))
+				fmt.Fprintf(&c, "      %s:\n        type: number\n", f("count"))
+				fmt.Fprintf(&c, "    secrets:\n      %s:\n        required: true\n      %s:\n        required: false\n", f("api_key"), f("extra"))
+				fmt.Fprintf(&c, "    outputs:\n      %s:\n        value: x\njobs:\n  j:\n    runs-on: ubuntu-latest\n    steps:\n      - run: echo ${{ inputs.%s }}\n", f("built"), f("name"))
+				w.WriteString("on: push\njobs:\n  a:\n    runs-on: ubuntu-latest\n    steps:\n      - uses: ./act\n        id: s1\n        with:\n")
+				fmt.Fprintf(&w, "          %s: x\n          %s: y\n          zz-undeclared: z\n", f("token"), f("opt-in"))
+				fmt.Fprintf(&w, "      - run: echo ${{ steps.s1.outputs.%s }} ${{ steps.s1.outputs.%s }} ${{ steps.s1.outputs.zz_nosuch }}\n", f("result"), f("other_out"))
+				w.WriteString("      - uses: ./act\n        with:\n")
+				fmt.Fprintf(&w, "          %s: v\n", f("level"))
+				w.WriteString("  call:\n    uses: ./.github/workflows/callee.yml\n    with:\n")
+				fmt.Fprintf(&w, "      %s: n\n      %s: abc\n      zz-undeclared: 1\n", f("name"), f("count"))
+				fmt.Fprintf(&w, "    secrets:\n      %s: ${{ secrets.X }}\n      zz-nosuch-secret: y\n", f("api_key"))
+				w.WriteString("  call2:\n    uses: ./.github/workflows/callee.yml\n")
+				fmt.Fprintf(&w, "  after:\n    needs: [call]\n    runs-on: ubuntu-latest\n    steps:\n      - run: echo ${{ needs.call.outputs.%s }} ${{ needs.call.outputs.zz_nosuch }}\n", f("built"))
+				return map[string]string{"act/action.yml": a.String(), "act/index.js": "", ".github/workflows/callee.yml": c.String(), ".github/workflows/w.yml": w.String()}
+			}
+			c := &c08World{A: render(plain), B: render(sp)}
+			k, m, nd := checkWorldRespelling(c)
+			r.Eval()
+			total := 0
+			for s, n := range rs.counts {
+				sites[s] += int64(n)
+				total += n
+			}
+			if total > 0 && nd > 0 {
+				r.NT(c.B[".github/workflows/w.yml"], c.B["act/action.yml"], c.B[".github/workflows/callee.yml"])
+			}
+			r.Class("definitions-in-other-files")
+			if k != "" {
+				r.Fail(rt, k, m, "C08/world", c)
+			}
+		})
 		// negative control: keywords are case-sensitive
 		r.Check(t, "keywords-stay-case-sensitive", hx.N(50, 300), func(rt *rapid.T) {
 			kw := rapid.SampledFrom([]string{"true", "false", "null"}).Draw(rt, "kw")
